@@ -84,6 +84,10 @@ def json_body(supi_s, req):
         del b["notifyUri"]          # the optional member is absent: the consumer registers no notification URI
     if req["consumer"] is not None:
         b["nfConsumerIdentification"] = {"nFName": req["consumer"], "nodeFunctionality": "SMF"}
+    if req.get("pdu") is not None:
+        # a PDU session with its own charging identifier (different from the request's chargingId)
+        b["pDUSessionChargingInformation"] = {"chargingId": req["pdu"], "pduSessionInformation": {
+            "pduSessionID": 1, "dnnId": "internet", "networkSlicingInfo": {"sNSSAI": {"sst": 1, "sd": "010203"}}}}
     if req["triggers"]:
         b["triggers"] = FINAL if 1 in req["triggers"] else OTHER
         if len(req["triggers"]) > 1:
@@ -118,7 +122,7 @@ def amap(d):
     return cl("(%d, (%d))" % (int(k), int(v)) for k, v in sorted(d.items(), key=lambda e: int(e[0])))
 
 
-def coq_obs(o, accounts, notes_cum, supis):
+def coq_obs(o, accounts, notes_cum, supis, nosize=False):
     supi_s = {n: "imsi-%d" % n for n in supis}
     status = o["status"]
     loc = o.get("location") or ""
@@ -150,7 +154,8 @@ def coq_obs(o, accounts, notes_cum, supis):
             sid = r["sessionId"]
             sid = sid[len(supi_s[n]):] if sid.startswith(supi_s[n]) else "?" + sid
             us = cl("(%d, (%d), (%d), (%d), (%d), (%d))" % tuple(e) for e in r["usages"] if e[1] != -2)
-            recs.append("mkRobs %s (%d) %s (%d) (%d) (%d) %s (%d)" % (zl(sid), r["chargingId"], zl(r["consumer"]), r["lrsn"], r["cause"], r["recSeq"], us, r["berLen"]))
+            recs.append("mkRobs %s (%d) %s (%d) (%d) (%d) %s (%d)" % (zl(sid), r["chargingId"], zl(r["consumer"]), r["lrsn"], r["cause"], r["recSeq"], us,
+                                                                    -2 if nosize else r["berLen"]))
         cdr = []
         for k, i in sorted(st["cdrIndex"].items()):
             kk = k[len(supi_s[n]):] if k.startswith(supi_s[n]) else "?" + k
@@ -210,8 +215,11 @@ def gen_history(rng, sim, hid, kind, nops):
 
     def new_req(supi, usages, triggers=None, consumer="smf1", cid=0, notify=0, supi_ok=True):
         seqno[0] += 1
-        return {"supi": supi, "supi_ok": supi_ok, "consumer": consumer, "usages": usages, "triggers": triggers or [],
-                "seq": seqno[0], "notify": notify, "cid": cid}
+        r = {"supi": supi, "supi_ok": supi_ok, "consumer": consumer, "usages": usages, "triggers": triggers or [],
+             "seq": seqno[0], "notify": notify, "cid": cid}
+        if kind == "pdu":
+            r["pdu"] = cid + 1000 + seqno[0]
+        return r
 
     def send(op):
         supi_s = "imsi-%d" % (op["req"]["supi"] if "req" in op else op.get("supi", 0))
@@ -240,7 +248,7 @@ def gen_history(rng, sim, hid, kind, nops):
             o["status"] = 0
         h.ops.append(op)
         h.raw.append(o)
-        h.obs.append(coq_obs(o, [(a[0], a[1]) for a in h.accounts], list(h.notes), h.supis))
+        h.obs.append(coq_obs(o, [(a[0], a[1]) for a in h.accounts], list(h.notes), h.supis, nosize=(kind == "pdu")))
         return o
 
     def supi_s_ref(op):
@@ -426,8 +434,26 @@ def gen_history(rng, sim, hid, kind, nops):
             send({"kind": "recharge", "supi": supi, "rg": rg})
         else:
             # requests that must be rejected without effect
-            which = rng.choice(["unknown-sub", "unknown-ref", "stale", "foreign"])
+            which = rng.choice(["unknown-sub", "unknown-ref", "stale", "foreign", "create-no-consumer", "create-no-consumer"])
             s = rng.choice(sessions)
+            if which == "create-no-consumer":
+                # a create without the mandatory nfConsumerIdentification: 400, and nothing changes -- neither the
+                # notification URI a known subscriber registered, nor the set of known subscribers
+                if rng.random() < 0.5:
+                    notec[0] += 1
+                    send({"kind": "create", "req": new_req(s["supi"], [], consumer=None, cid=1, notify=notec[0])})
+                    acc = [(a[0], a[1]) for a in h.accounts if a[0] == s["supi"]]
+                    if acc:
+                        send({"kind": "recharge", "supi": acc[0][0], "rg": acc[0][1]})
+                else:
+                    notec[0] += 1
+                    ghost = base + 8
+                    send({"kind": "create", "req": new_req(ghost, [], consumer=None, cid=1, notify=notec[0])})
+                    gq = usage_for({"grants": {}, "lsn": 950}, rng.choice(rgs), False, rng)
+                    send({"kind": rng.choice(["update", "release"]), "ref": s["ref"], "req": new_req(ghost, [gq], cid=1),
+                          "fullref": "imsi-%d%s" % (s["supi"], s["ref"])})
+                    send({"kind": "recharge", "supi": ghost, "rg": rgs[0]})
+                continue
             g = usage_for({"grants": {}, "lsn": 900}, rng.choice(rgs), False, rng)
             knd = rng.choice(["update", "release"])
             if which == "unknown-sub":
@@ -696,7 +722,7 @@ SPEC = {
     # property: (Props file, correspondence codes that matter, plan quick, plan thorough)
     "C01": ("Charging/PropsC01.v", {2, 3, 4}, [("single", 14)] * 10 + [("multi", 16)] * 8 + [("createusage", 5)] * 2),
     "C06": ("Charging/PropsC06.v", {2, 3, 4}, [("single", 16)] * 8 + [("compliant", 16)] * 7 + [("multi", 14)] * 5),
-    "C02": ("Charging/PropsC02.v", {5, 6, 8}, [("multi", 18)] * 12 + [("single", 10)] * 4 + [("split", 6)] * 2),
+    "C02": ("Charging/PropsC02.v", {5, 6, 8}, [("multi", 18)] * 10 + [("pdu", 12)] * 2 + [("single", 10)] * 4 + [("split", 6)] * 2),
     "C03": ("Charging/PropsC03.v", {5, 8}, [("multi", 14)] * 8 + [("split", 10)] * 4 + [("huge", 2)] + [("lenwalk", 1)]),
     "C10": ("Charging/PropsC10.v", {1, 6, 9}, [("wrap32", 16)] + [("multi", 18)] * 10 + [("names", 14)] * 4 + [("burst", 4)] * 4 + [("wrap63", 8)]),
     "C12": ("Charging/PropsC12.v", {1, 3, 4, 5, 6, 7}, [("multi", 18)] * 14 + [("single", 12)] * 4),
